@@ -176,35 +176,41 @@ def run(prop, replay_file=None):
             except tlc.TLCError as e:
                 rep.machinery.append("TLC failed on the grid: %s" % str(e)[-1500:])
             cases = gen_cases(prop, 3000 if t == "quick" else 40000, sd)
-        nbad = 0
-        for k in range(0, len(cases), 4000):
-            chunk = cases[k:k + 4000]
+        def evaluate(chunk):
             with open(os.path.join(w, "SizerCases.tla"), "w") as fh:
                 fh.write(cases_module(chunk))
             with open(os.path.join(w, "cases.cfg"), "w") as fh:
                 fh.write("SPECIFICATION Spec\nINVARIANT Sound\nCHECK_DEADLOCK FALSE\n")
-            try:
-                r = tlc.run(w, "MC_Sizer", "cases.cfg", workers=8, timeout=3000)
-            except tlc.TLCError as e:
-                rep.machinery.append("TLC failed on the cases: %s" % str(e)[-1500:])
-                continue
-            rep.add_mc(r, "MC_Sizer(cases %d..)" % k)
+            r = tlc.run(w, "MC_Sizer", "cases.cfg", workers=8, timeout=3000)
+            if r.violated == "evaluation-error" and "Overflow when computing" in r.out:
+                raise tlc.Overflow()
+            rep.add_mc(r, "MC_Sizer(%d cases)" % len(chunk))
             if not r.ok:
-                rep.machinery.append("SizerSound violated on a supplied case (spec error): %s" % (r.trace[-1:],))
-                continue
+                raise tlc.TLCError("SizerSound violated on a supplied case (spec error): %s" % (r.trace[-1:],))
             answers = {}
             for v in tlaval.extract_tagged(r.out, "R"):
                 answers[v[1]] = v[2]
             if len(answers) != len(chunk):
-                rep.machinery.append("TLC printed %d answers for %d cases" % (len(answers), len(chunk)))
+                raise tlc.TLCError("TLC printed %d answers for %d cases" % (len(answers), len(chunk)))
+            return [answers[j] for j in range(1, len(chunk) + 1)]
+
+        def skip(_c):
+            rep.cov["skipped_overflow"] = rep.cov.get("skipped_overflow", 0) + 1
+
+        for k in range(0, len(cases), 4000):
+            chunk = cases[k:k + 4000]
+            try:
+                exps = tlc.eval_with_bisect(evaluate, chunk, skip)
+            except tlc.TLCError as e:
+                rep.machinery.append(str(e)[-1500:])
                 continue
-            for j, c in enumerate(chunk, 1):
-                exp = answers[j]
+            for j, (c, exp) in enumerate(zip(chunk, exps), 1):
+                if exp is None:
+                    continue
                 got = call_real(c)
                 rep.cov["evaluations"] += 1
                 ok, why = judge(exp, got)
                 if not ok:
-                    nbad += 1
                     key = "%s|%s" % (c["kind"], why.split(":")[0])
                     rep.violation(key, "%s; case %s; real sizer answered %s, specification admits %s" % (why, c, got, _show(exp)),
                                   dict(case=c, got=list(got), expected=_show(exp)))
